@@ -17,7 +17,12 @@ smw = KaniUnit("c03_smw", CORE, modules=[dict(file=CORE + "/src/model/state/stat
 smw.native_witnesses = ["c03_wit_distance_accumulates_the_sum_across_units", "c03_wit_energy_and_time_accumulate_the_sum_across_units"]
 sm = VerusUnit("c03_statemodel", "c03_statemodel", rlimit=60, paired_kani=(smw, []))
 cm = VerusUnit("c07_costmodel", "c07_costmodel", rlimit=30)
-UNITS = [heading, turn, sm, cm, smw]
-EXPLANATION = "turn classification kernels (complete over i16), per-edge state/cost split (Verus, see C07 units), accumulation lemma"
-NOT_DECIDED = "the response summary produced through serde_json in the output plugin"
+sv = VerusUnit("c13_single_via", "c13_single_via", rlimit=60)
+sp = VerusUnit("c02_speed", "c02_speed", rlimit=30)
+UNITS = [heading, turn, sm, cm, sv, sp, smw]
+EXPLANATION = ("turn classification kernels (complete over i16); StateModel get/set/add under contract (frame + `add` grows the slot by the increment converted to the feature's unit) and the accumulation lemma; "
+               "per-edge state/cost split (EdgeTraversal::forward/reverse_traversal, Verus, see C07 units); the speed-table traversal model (unit c02_speed): an edge adds its length (converted) to the distance slot "
+               "and length / its own table speed to the time slot, nothing else changes; the reverse half of a bidirectional route is re-traversed edge by edge in travel order, each edge after its TRUE predecessor "
+               "and from the state that predecessor left (reorient_reverse_route, unit c13_single_via)")
+NOT_DECIDED = "the response summary produced through serde_json in the output plugin; the energy traversal models' speed reconstruction; turn-delay engine lookup tables"
 ASSUMPTIONS = ["alloc::fmt::format stubbed on error paths"]
